@@ -363,6 +363,13 @@ static void server_handle (const NiceAddress *srv, const NiceAddress *from, cons
     else if (strstr (sv->mode, "nat")) { char ip[64]; nice_address_to_string (from, ip); unsigned a, b, c, e; if (sscanf (ip, "%u.%u.%u.%u", &a, &b, &c, &e) == 4) { char nip[64]; sprintf (nip, "198.51.%u.%u", c, e); nice_address_set_from_string (&mapped, nip); nice_address_set_port (&mapped, nice_address_get_port (from)); } }
     nice_address_copy_to_sockaddr (&mapped, (struct sockaddr *) &ss);
     stun_agent_init_response (&ag, &rep, buf, sizeof buf, &req);
+    if (strstr (sv->mode, "badxor")) { /* a success answer whose XOR-MAPPED-ADDRESS cannot be decoded (wrong length for its family, unknown family, too short);
+         in "badxornat" a well-formed MAPPED-ADDRESS stands beside it */
+      static const uint8_t bad[4][20] = { { 0, 2, 0x12, 0x34, 1, 2, 3, 4 }, { 0, 1, 0x12, 0x34, 1, 2, 3, 4, 5, 6, 7, 8, 9, 10, 11, 12, 13, 14, 15, 16 }, { 0, 1, 0x12 }, { 0, 7, 0x12, 0x34, 1, 2, 3, 4 } };
+      static const int badlen[4] = { 8, 20, 3, 8 }; int v = sv->count % 4;
+      stun_message_append_bytes (&rep, STUN_ATTRIBUTE_XOR_MAPPED_ADDRESS, bad[v], badlen[v]);
+      if (strstr (sv->mode, "nat")) stun_message_append_addr (&rep, STUN_ATTRIBUTE_MAPPED_ADDRESS, (struct sockaddr *) &ss, sizeof ss);
+      server_reply (sv, from, &rep, &ag, buf, NULL, 0); return; }
     if (old3489) stun_message_append_addr (&rep, STUN_ATTRIBUTE_MAPPED_ADDRESS, (struct sockaddr *) &ss, sizeof ss); else stun_message_append_xor_addr (&rep, STUN_ATTRIBUTE_XOR_MAPPED_ADDRESS, &ss, sizeof ss);
     if (strstr (sv->mode, "late")) { long a = d_min_us, b = d_max_us; d_min_us = d_max_us = 1500000; server_reply (sv, from, &rep, &ag, buf, NULL, 0); d_min_us = a; d_max_us = b; return; }
     server_reply (sv, from, &rep, &ag, buf, NULL, 0); return;
